@@ -1,4 +1,5 @@
-package main
+// Package c09 is the monitor for property C09.
+package c09
 
 import (
 	"context"
@@ -8,6 +9,7 @@ import (
 	"strings"
 
 	"ariga.io/atlas/sql/migrate"
+	"verifharness/lib/world"
 	"verifharness/rt"
 )
 
@@ -68,19 +70,19 @@ func c09Dir(shape []int) (*migrate.MemDir, []string, map[string]string) {
 // printed event trace.
 func c09Run(cs c09Case) (why, key string, trace []string) {
 	dir, canon, fileOf := c09Dir(cs.Shape)
-	w := newWorld()
+	w := world.New()
 	attempts := append(append([]c09Fault(nil), cs.Faults...), c09Fault{})
 	okCount := map[string]int{}  // successful execs per statement
 	okByFile := map[string]int{} // distinct successfully executed statements per file
 	var order []string           // distinct successful statements in order of first success
 	failedBk := map[string]int{} // times the write right after a statement's exec failed
-	defer func() { trace = evStrings(w.log) }()
+	defer func() { trace = world.EvStrings(w.Log) }()
 	for ai, f := range attempts {
-		w.execN, w.writeN, w.failExec, w.failWrite = 0, 0, f.Exec, f.Write
-		start := len(w.log)
+		w.ExecN, w.WriteN, w.FailExec, w.FailWrite = 0, 0, f.Exec, f.Write
+		start := len(w.Log)
 		startRevs := map[string]*migrate.Revision{}
-		for k, v := range w.revs {
-			startRevs[k] = cpRev(v)
+		for k, v := range w.Revs {
+			startRevs[k] = world.CpRev(v)
 		}
 		ex, err := migrate.NewExecutor(w, dir, w)
 		if err != nil {
@@ -91,8 +93,8 @@ func c09Run(cs c09Case) (why, key string, trace []string) {
 			return fmt.Sprintf("attempt %d: panic %v", ai, val), rt.PanicKey(st), nil
 		}
 		firstExec := true
-		for i := start; i < len(w.log); i++ {
-			e := w.log[i]
+		for i := start; i < len(w.Log); i++ {
+			e := w.Log[i]
 			switch e.Kind {
 			case "X":
 				if firstExec {
@@ -127,7 +129,7 @@ func c09Run(cs c09Case) (why, key string, trace []string) {
 				} else if okCount[e.Stmt] > 1+failedBk[e.Stmt] {
 					return fmt.Sprintf("attempt %d: %s executed %d times without a failed bookkeeping write of its own", ai, e.Stmt, okCount[e.Stmt]), "repeat", nil
 				}
-				if i+1 < len(w.log) && w.log[i+1].Kind == "W" && !w.log[i+1].OK {
+				if i+1 < len(w.Log) && w.Log[i+1].Kind == "W" && !w.Log[i+1].OK {
 					failedBk[e.Stmt]++
 				}
 			case "W":
@@ -138,12 +140,12 @@ func c09Run(cs c09Case) (why, key string, trace []string) {
 		}
 		// A faulted attempt must stop: it returns an error and executes nothing after the fault.
 		if ai < len(attempts)-1 && (f.Exec != 0 || f.Write != 0) {
-			faultHit := (f.Exec != 0 && w.execN >= f.Exec) || (f.Write != 0 && w.writeN >= f.Write)
+			faultHit := (f.Exec != 0 && w.ExecN >= f.Exec) || (f.Write != 0 && w.WriteN >= f.Write)
 			if faultHit && rerr == nil {
 				return fmt.Sprintf("attempt %d: injected fault %+v swallowed (nil error)", ai, f), "fault-swallowed", nil
 			}
-			if f.Exec != 0 && w.execN > f.Exec {
-				return fmt.Sprintf("attempt %d: %d execs after the failing one", ai, w.execN-f.Exec), "no-stop", nil
+			if f.Exec != 0 && w.ExecN > f.Exec {
+				return fmt.Sprintf("attempt %d: %d execs after the failing one", ai, w.ExecN-f.Exec), "no-stop", nil
 			}
 		}
 		if ai == len(attempts)-1 {
@@ -154,9 +156,9 @@ func c09Run(cs c09Case) (why, key string, trace []string) {
 				return fmt.Sprintf("final: executed %d of %d statements", len(order), len(canon)), "lost-statement", nil
 			}
 			for f, n := range cs.Shape {
-				r := w.revs[fmt.Sprint(f+1)]
+				r := w.Revs[fmt.Sprint(f+1)]
 				if r == nil || r.Applied != n || r.Total != n || r.Error != "" {
-					return fmt.Sprintf("final: revision %d = %s", f+1, semRev(r)), "final-revision", nil
+					return fmt.Sprintf("final: revision %d = %s", f+1, world.SemRev(r)), "final-revision", nil
 				}
 			}
 			onlyExec := true
